@@ -163,6 +163,12 @@ func applyRename(ctx Context, doc bsonkit.Doc, name, path string, v interface{})
 		return fmt.Errorf("%s: expected string", name)
 	}
 
+	// reject paths with null bytes, which cannot occur in field names and
+	// collide with the internal end-of-path marker
+	if strings.Contains(newPath, "\x00") {
+		return fmt.Errorf("%s: invalid target path", name)
+	}
+
 	// TODO: We probably need to check whether indexes in the path are actually
 	//  arrays. They might also reference an object field.
 
